@@ -30,7 +30,7 @@ def gen_prog(rng, nm=None, nh=None, nv=None, cyc_rate=0.15, hidden_rate=0.08, au
         if n[0] == "m" and n != "m%d" % nm and rng.random() < maux_rate:
             where = "aux"                 # memento functions of the helper module (reached as `aux.mK` from `mod`)
         if n[0] == "V":
-            val = rng.choice([1, 2, "s", [1, 2], {"a": 1, "b": [2]}, 1.5, True, None, "UNSUPPORTED", "DICT_FROM_SET0"])
+            val = rng.choice([1, 2, "s", [1, 2], {"a": 1, "b": [2]}, 1.5, True, None, "UNSUPPORTED", "DICT_FROM_SET0", "MIXDICT_FROM_SET0"])
             defs[n] = dict(kind="var", where=where, value=val)
             continue
         d = dict(kind="memento" if n[0] == "m" else "plain", where=where, const=rng.randint(0, 9),
@@ -40,6 +40,7 @@ def gen_prog(rng, nm=None, nh=None, nv=None, cyc_rate=0.15, hidden_rate=0.08, au
                  gx=rng.choice([None, None, None, "x", "y"]), dcall=rng.choice([None, None, None, 0, 1]), refs=[])
         if d["kind"] == "memento":
             d["explicit"] = ("e%d" % rng.randint(1, 3)) if rng.random() < explicit_rate else None
+            d["wrapped"] = rng.random() < 0.12
         else:
             d["wrapped"] = rng.random() < 0.2
         defs[n] = d
@@ -78,7 +79,7 @@ def gen_prog(rng, nm=None, nh=None, nv=None, cyc_rate=0.15, hidden_rate=0.08, au
             d.update(setc=None, tup=None, dflt=None, kwd=None, lam=None, nest=None, gx=None, dcall=None)
     # a variable whose name differs from another one only in case (rule keys that tie in a case-insensitive order)
     for n in [x for x in names if x[0] == "V"]:
-        if rng.random() < twin_rate and defs[n]["value"] not in ("UNSUPPORTED",):
+        if rng.random() < twin_rate and not unsupported(defs[n]["value"]):
             tw = "v" + n[1:]
             users = [x for x in fn_names if any(r[0] == n for r in defs[x]["refs"])]
             if not users:
@@ -99,7 +100,7 @@ def edits(rng, prog, n=1):
     for _ in range(n):
         name = rng.choice(names)
         d = p["defs"][name]
-        if d["kind"] == "var" and d["value"] == "UNSUPPORTED":
+        if d["kind"] == "var" and unsupported(d["value"]):
             continue                      # variables of unsupported types are not tracked (outside the property)
         if d.get("foreign"):
             continue                      # a function of another package is not tracked either
@@ -188,9 +189,17 @@ def discipline(prev, cur):
 # rendering
 # ------------------------------------------------------------------------------------------------
 
+def unsupported(v):
+    """values of types memento does not track (no rule is made for the variable)"""
+    return v == "UNSUPPORTED" or (isinstance(v, str) and v.startswith("MIXDICT"))
+
+
 def _lit(v):
     if v == "UNSUPPORTED":
         return "complex(1, 2)"
+    if isinstance(v, str) and v.startswith("MIXDICT_FROM_SET"):
+        # the same with keys of two types (str and int): json cannot sort such keys
+        return "{(k if len(k) %% 2 else len(k)): len(k) + %d for k in {'alpha', 'beta', 'gamma', 'delta', 'eps', 'zeta', 'et'}}" % int(v[16:] or 0)
     if isinstance(v, str) and v.startswith("DICT_FROM_SET"):
         # a dict whose insertion order is not fixed by the program text (it follows set iteration order)
         return "{k: len(k) + %d for k in {'alpha', 'beta', 'gamma', 'delta', 'eps', 'zeta'}}" % int(v[13:] or 0)
@@ -219,12 +228,17 @@ def render_def(name, d, prog, pkg):
     L = []
     if d["kind"] == "memento":
         L.append('@memento_function(cluster="vp"%s)' % (', version=%r' % d["explicit"] if d["explicit"] else ""))
+        if d.get("wrapped"):
+            L.append("@_deco")                       # the memento function is stacked on a functools.wraps decorator
     elif d.get("wrapped"):
         L.append("@_deco")
     L.append("def %s(%s):" % (name, params))
     if d["kind"] == "memento":
         L.append('    vrec.REC.enter(%r, x)' % name)
     L.append("    r = [%d]" % d["const"])
+    # a local whose name is a *prefix* of the module name `aux` and of the alias names `a_...` (not a component of them)
+    L.append("    a = x")
+    L.append("    r.append(a - x)")
     if d["setc"] is not None:
         L.append("    r.append([v for v in ('a', 'b', 'c', 'alpha', 'beta', 'gamma', 'delta', 'epsilon') if v in {%s}])" %
                  ", ".join(repr(s) for s in d["setc"]))
